@@ -428,8 +428,15 @@ impl Check for C12 {
     }
     fn run_unit(&self, unit: &Value, ctx: &mut Ctx) {
         let u: Unit = serde_json::from_value(unit.clone()).unwrap();
+        // first with the variable of the env-backed item unset, then holding a value with a blank
+        // line in it (the value is shown in the help; the rows after it must stay)
         std::env::remove_var("BPAFMC_DOC");
         run_def(unit, &u.opts, None, ctx);
+        if serde_json::to_string(&u.opts).map_or(false, |t| t.contains("BPAFMC_DOC")) {
+            std::env::set_var("BPAFMC_DOC", "a\n\nb");
+            run_def(unit, &u.opts, None, ctx);
+            std::env::remove_var("BPAFMC_DOC");
+        }
     }
     fn replay(&self, unit: &Value, case: &Value, ctx: &mut Ctx) {
         let u: Unit = serde_json::from_value(unit.clone()).unwrap();
@@ -437,9 +444,14 @@ impl Check for C12 {
         std::env::remove_var("BPAFMC_DOC");
         ctx.s.evaluations += 1;
         run_def(unit, &u.opts, Some(&path), ctx);
+        if ctx.s.violations.is_empty() && serde_json::to_string(&u.opts).map_or(false, |t| t.contains("BPAFMC_DOC")) {
+            std::env::set_var("BPAFMC_DOC", "a\n\nb");
+            run_def(unit, &u.opts, Some(&path), ctx);
+            std::env::remove_var("BPAFMC_DOC");
+        }
     }
     fn rule(&self) -> String {
-        "definitions = every ordered tuple of <=3 distinct fields from 15 kinds (switch, env argument, short-only argument, hidden switch, aliases, alternative, group_help group, with_group_help, displayed fallback, hide_usage, custom_usage, the same item in two alternatives, adjacent group, repeated argument with a two-paragraph help, optional group) x 8 tails (none, positional with / without help, strict positional, choice of commands incl. a hidden one and aliases, nested commands of depth 3, a command beside a flag in one titled group, command paths differing only in dash versus nesting) x 4 option-level configurations; for EVERY command level reachable by visible commands the --help text is checked against an independent visibility calculator: each visible item has exactly one row with its first short/long name, metavariable and first help paragraph, env state shown, no option-like token that is not a visible name (hidden items, alias names, hidden commands never shown), command rows only for visible commands, the help flag listed under the options heading and positionals not under it, descr < usage < header < lists < footer, each shown name accepted by the parser; hide_usage/custom_usage applied to every field leave everything after the usage block identical; evaluation = one run; non-trivial = level with all clauses satisfied".into()
+        "definitions = every ordered tuple of <=3 distinct fields from 15 kinds (switch, env argument, short-only argument, hidden switch, aliases, alternative, group_help group, with_group_help, displayed fallback, hide_usage, custom_usage, the same item in two alternatives, adjacent group, repeated argument with a two-paragraph help, optional group) x 8 tails (none, positional with / without help, strict positional, choice of commands incl. a hidden one and aliases, nested commands of depth 3, a command beside a flag in one titled group, command paths differing only in dash versus nesting) x 4 option-level configurations; for EVERY command level reachable by visible commands the --help text is checked against an independent visibility calculator: each visible item has exactly one row with its first short/long name, metavariable and first help paragraph, env state shown (variable unset, and holding a value with a blank line), no option-like token that is not a visible name (hidden items, alias names, hidden commands never shown), command rows only for visible commands, the help flag listed under the options heading and positionals not under it, descr < usage < header < lists < footer, each shown name accepted by the parser; hide_usage/custom_usage applied to every field leave everything after the usage block identical; evaluation = one run; non-trivial = level with all clauses satisfied".into()
     }
     fn bounds(&self, tier: Tier) -> Value {
         json!({"fields": "<=3 of 15 kinds + tail", "levels": "every command path, depth <=3"})
